@@ -11,4 +11,6 @@ let () =
   | _ :: "store" :: path :: _ -> D_store.run path
   | _ :: "static" :: path :: _ -> D_static.run path
   | _ :: "spec" :: path :: _ -> D_spec.run path
+  | _ :: "readers" :: path :: _ -> D_readers.run_readers path
+  | _ :: "writers" :: path :: _ -> D_readers.run_writers path
   | _ -> prerr_endline "usage: driver <mode> <cases-file> [--thr N]"; exit 2
